@@ -537,6 +537,21 @@ def judge(case, iout, mout, sp, oracle, ponly):
     return bad
 
 
+def split_case(lines):
+    """a corpus / replay file may hold several inputs: one case per input"""
+    res, cur, arg = [], [], None
+    for l in lines:
+        a = l.split()[1] if len(l.split()) > 1 else None
+        if cur and a != arg:
+            res.append(cur)
+            cur = []
+        cur.append(l)
+        arg = a
+    if cur:
+        res.append(cur)
+    return res
+
+
 def load_extra_known(rep):
     p = os.environ.get("NNGV_EXTRA_KNOWN")
     if p and os.path.exists(p):
@@ -569,9 +584,9 @@ def run(tier, seed, replay=None):
     schemes, ponly, flags = consts_tables()
     rng = random.Random(seed)
     if replay:
-        cases = [[l.strip() for l in open(replay) if l.strip() and not l.startswith("#")]]
+        cases = split_case([l.strip() for l in open(replay) if l.strip() and not l.startswith("#")])
     else:
-        cases = load_corpus(PROP) + build_cases(tier, rng, schemes)
+        cases = [c for f in load_corpus(PROP) for c in split_case(f)] + build_cases(tier, rng, schemes)
     oracle = Oracle(impl)
     sp = SpecEval(model)
     nevals = 0
